@@ -47,11 +47,11 @@ package cty
 // The bytes hashed for a number are the ten-digit text of its value (C03: equal numbers hash alike
 // whatever the precision of their representation).
 //@ func cty.appendSetHashBytes
-//@   tags C20 C03
+//@   tags C20 C03 C06
 //@   frame_only
 //@   writes MapC<Any~Unit> marks
 //@   writes bytes.Buffer buf
-//@   ensures[C03] number_hash: (=> (and (wf_deep val) (is_number_ty (vty val)) (kn val)) (= (buf.str ($at<bytes.Buffer> buf)) (str.++ (buf.str (old ($at<bytes.Buffer> buf))) (num_text10 (num_i val) (num_r val) (bf.negzero (bf_of val))))))
+//@   ensures[C03,C06] number_hash: (=> (and (wf_deep val) (is_number_ty (vty val)) (kn val)) (= (buf.str ($at<bytes.Buffer> buf)) (str.++ (buf.str (old ($at<bytes.Buffer> buf))) (num_text10 (num_i val) (num_r val) (bf.negzero (bf_of val))))))
 //
 // Interface contracts of unknownValRefinement (assumed at dynamic calls; every
 // implementer below carries the same clauses and is verified against them).
